@@ -69,7 +69,8 @@ type Run struct {
 	Blobs       map[string][]byte
 	ReplayBlobs map[string][]byte
 
-	cleanup []func()
+	cleanup    []func()
+	firstFault string
 }
 
 const keepHead, keepTail = 400, 200
@@ -123,6 +124,16 @@ func (r *Run) Eventf(format string, a ...any) {
 // Fault counts one firing of a fault kind and logs it.
 func (r *Run) Fault(kind string, format string, a ...any) {
 	r.Faults[kind]++
+	if r.firstFault == "" {
+		site := fmt.Sprintf(format, a...)
+		if i := strings.IndexByte(site, ' '); i >= 0 && strings.HasPrefix(site, "call#") {
+			site = site[i+1:]
+		}
+		if i := strings.IndexByte(site, '('); i >= 0 {
+			site = site[:i]
+		}
+		r.firstFault = kind + "@" + site
+	}
 	r.Eventf("FAULT %s "+format, append([]any{kind}, a...)...)
 }
 
@@ -242,3 +253,7 @@ func Short(s string, n int) string {
 	}
 	return s
 }
+
+// FirstFaultSite returns "<kind>@<site>" of the first fault fired in this run ("" if none); the
+// site is stripped of its parenthesised arguments so it can serve as a known-finding key.
+func (r *Run) FirstFaultSite() string { return r.firstFault }
